@@ -452,6 +452,14 @@ def corpus():
                  pg.Impl(1, ("Bar", (v(0),)), [("Foo", (v(0),))])], "corpus-F12")
     out.append((p, [("atom", ("Foo", (A("Vec", A("Vec", A("A"))),))), ("exists", (1,), ("atom", ("Foo", (A("Vec", v(1)),)))),
                     ("atom", ("Bar", (A("B"),)))]))
+    # F7n / F29: negative subgoal whose answer is conditional on an unresolved coinductive cycle
+    p = pg.Prog([pg.Adt("S%d" % i) for i in range(5)], [pg.Trait("C0", 0, ("coinductive",))],
+                [pg.Impl(0, ("C0", (A("S0"),)), [("C0", (A("S2"),))]),
+                 pg.Impl(0, ("C0", (A("S1"),)), [("C0", (A("S2"),)), ("C0", (A("S3"),))]),
+                 pg.Impl(0, ("C0", (A("S2"),)), [("C0", (A("S3"),)), ("C0", (A("S4"),))]),
+                 pg.Impl(0, ("C0", (A("S3"),)), [("C0", (A("S1"),)), ("C0", (A("S4"),))]),
+                 pg.Impl(0, ("C0", (A("S4"),)), [("C0", (A("S1"),)), ("C0", (A("S4"),))])], "corpus-F7n")
+    out.append((p, [("not", ("atom", ("C0", (A("S2"),)))), ("atom", ("C0", (A("S0"),)))]))
     # F27 mixed cycle
     p = pg.Prog([pg.Adt("X")], [pg.Trait("C", 0, ("coinductive",)), pg.Trait("I"), pg.Trait("J")],
                 [pg.Impl(0, ("C", (A("X"),)), [("I", (A("X"),))]), pg.Impl(0, ("I", (A("X"),)), [("C", (A("X"),))]),
